@@ -25,7 +25,7 @@ type Script struct {
 }
 
 type Step struct {
-	Op   string   `json:"op"`             // txn | read | idle | reopen | fl | abandon
+	Op   string   `json:"op"`             // txn | read | idle | reopen | fl | abandon | misuse | ropen | rread | rclose
 	Puts [][2]int `json:"puts,omitempty"` // (key, value id; 0 = delete)
 	N    int      `json:"n,omitempty"`    // fl: number of flusher steps to release
 	Cfg  *CfgJSON `json:"cfg,omitempty"`  // reopen with another configuration
@@ -47,6 +47,7 @@ type ScriptResult struct {
 	FlSteps   int            `json:"fl_steps"`
 	Abandons  int            `json:"abandons"`
 	Misuse    int            `json:"misuse"`
+	Readers   int            `json:"readers"`
 	Diverged  int            `json:"diverged"`
 	ImplTrace []string       `json:"-"`
 }
@@ -68,8 +69,23 @@ func genScript(r *rand.Rand, id string, nops int, profile string) Script {
 		reopenP, abandonP = pick(r, 0.05, 0.1, 0.25), 0
 	case "c08":
 		reopenP, abandonP, misuseP = pick(r, 0.0, 0.05), pick(r, 0.2, 0.4), 0.1
+	case "c05":
+		reopenP, abandonP = 0, 0
+		s.Mode = "steer"
 	}
-	s.Mode = pick(r, "free", "steer", "steer")
+	// long-lived readers (profile c05): workers 2..4 hold a snapshot open over many commits,
+	// flusher stages and compactions and re-read every key after every step
+	open := map[int]bool{}
+	rsteps := func() {
+		for w := 2; w <= 4; w++ {
+			if open[w] {
+				s.Steps = append(s.Steps, Step{Op: "rread", N: w})
+			}
+		}
+	}
+	if s.Mode == "" {
+		s.Mode = pick(r, "free", "steer", "steer")
+	}
 	flP := 0.0
 	if s.Mode == "steer" {
 		flP = pick(r, 0.15, 0.3, 0.5)
@@ -81,6 +97,19 @@ func genScript(r *rand.Rand, id string, nops int, profile string) Script {
 			// release flusher stages one at a time, reading everything after each
 			for r.Float64() < flP {
 				s.Steps = append(s.Steps, Step{Op: "fl", N: 1}, Step{Op: "read"})
+				rsteps()
+			}
+		}
+		if profile == "c05" {
+			w := 2 + r.Intn(3)
+			switch {
+			case !open[w] && r.Intn(4) == 0:
+				// often right after a finished reader at the same timestamp (the "read" step before)
+				s.Steps = append(s.Steps, Step{Op: "ropen", N: w, How: pick(r, "ro", "ro", "rw")})
+				open[w] = true
+			case open[w] && r.Intn(12) == 0:
+				s.Steps = append(s.Steps, Step{Op: "rclose", N: w})
+				open[w] = false
 			}
 		}
 		switch {
@@ -124,8 +153,15 @@ func genScript(r *rand.Rand, id string, nops int, profile string) Script {
 			s.Steps = append(s.Steps, st)
 		}
 		s.Steps = append(s.Steps, Step{Op: "read"})
+		rsteps()
 	}
 	s.Steps = append(s.Steps, Step{Op: "idle"}, Step{Op: "read"})
+	rsteps()
+	for w := range open {
+		if open[w] {
+			s.Steps = append(s.Steps, Step{Op: "rclose", N: w})
+		}
+	}
 	if profile != "c01" {
 		s.Steps = append(s.Steps, Step{Op: "reopen"}, Step{Op: "read"})
 	}
@@ -146,7 +182,8 @@ type runner struct {
 	c    *dbx.Sess
 	cfg  CfgJSON
 	res  *ScriptResult
-	keep bool // keep the directory
+	keep bool              // keep the directory
+	rd   map[int]*dbx.Sess // long-lived readers
 }
 
 // flIdle: the flusher is parked at fl.wait and nothing is queued.
@@ -328,7 +365,33 @@ func (r *runner) step(step Step) error {
 				}
 			}
 		}
+	case "ropen":
+		if r.rd == nil {
+			r.rd = map[int]*dbx.Sess{}
+		}
+		c := r.st.Sess(step.N)
+		c.Begin(step.How == "rw")
+		r.rd[step.N] = c
+		r.res.Readers++
+	case "rread":
+		if c := r.rd[step.N]; c != nil {
+			for k := 1; k <= r.s.NKeys; k++ {
+				if c.Get(k) == -2 {
+					r.res.Corrupt++
+				}
+				r.res.Reads++
+			}
+		}
+	case "rclose":
+		if c := r.rd[step.N]; c != nil {
+			c.Discard()
+			delete(r.rd, step.N)
+		}
 	case "reopen":
+		for w, c := range r.rd {
+			c.Discard()
+			delete(r.rd, w)
+		}
 		r.st.Close()
 		if step.Cfg != nil {
 			r.cfg = *step.Cfg
